@@ -108,4 +108,33 @@ theorem C14_resolve_ref_total (root : Xml) (rid : Nat) : ∃ r, resolveRef root 
     · exact ⟨_, rfl⟩
   · exact ⟨_, rfl⟩
 
+
+/-! ## Markers: a reference and a block are normalised by the same function -/
+
+def markerOf (i : Item) : Option String := (i.attribs.getD []).lookup "marker"
+
+/-- **Reference and block markers are trimmed alike.** Whatever the parse tree of a footnote reference or of a
+FOOTNOTE block looks like, the marker that ends up in the dict tree is Python's `strip()` of the marker text — the same
+function on both sides, so two markers that are equal up to surrounding white space (a no-break space pasted from a word
+processor, the CR of a CRLF line ending) are equal in the dict tree, where `resolve_displaced_content` compares them. -/
+theorem C14_markers_trimmed_alike (inp : Array Char) (fuel : Nat) (r b : Tree) (st sb : Nat) (lr lb : List (String × Nat))
+    (kr kb : List Tree) (p q p' q' : Nat)
+    (hr : r = .node p q ["FootnoteRef"] lr kr) (hb : b = .node p' q' ["Footnote"] lb kb)
+    (heq : pyStripS ((r.child "marker").textOf inp) = pyStripS ((b.child "marker").textOf inp)) :
+    markerOf (toDict inp (fuel + 1) r) = some (pyStripS ((r.child "marker").textOf inp)) ∧
+    markerOf (toDict inp (fuel + 1) b) = markerOf (toDict inp (fuel + 1) r) := by
+  have t1 : rootTable.lookup "FootnoteRef" = none := by decide +kernel
+  have t2 : mainContentTable.lookup "FootnoteRef" = none := by decide +kernel
+  have t3 : blockIndentTable.lookup "FootnoteRef" = none := by decide +kernel
+  have u1 : rootTable.lookup "Footnote" = none := by decide +kernel
+  have u2 : mainContentTable.lookup "Footnote" = none := by decide +kernel
+  have u3 : blockIndentTable.lookup "Footnote" = none := by decide +kernel
+  subst hr hb
+  constructor
+  · rw [toDict]
+    simp [Tree.lastType, Tree.types, t1, t2, t3, markerOf, Item.attribs, List.lookup]
+  · rw [toDict, toDict]
+    simp only [Tree.lastType, Tree.types, List.getLast?_singleton, t1, t2, t3, u1, u2, u3]
+    simp [markerOf, Item.attribs, List.lookup, heq]
+
 end Bluebell
